@@ -5,6 +5,7 @@ mod findings;
 mod model;
 mod par;
 mod probe;
+mod props_comp;
 mod props_crash;
 mod props_flat;
 mod props_seq;
@@ -16,6 +17,7 @@ fn lookup(engine: &str) -> Option<par::WorkerFn> {
         "seq" => Some(engines::seq::worker),
         "crash" => Some(engines::crash::worker),
         "wire" => Some(engines::wire::worker),
+        "wal" => Some(engines::wal::worker),
         _ => None,
     }
 }
@@ -28,6 +30,7 @@ fn check(prop: &str, tier: &str) -> i32 {
         "C08" => props_crash::c08(tier),
         "C03" => props_seq::c03(tier),
         "C20" => props_flat::c20(tier),
+        "C17" => props_comp::c17(tier),
         "C04" => props_seq::c04(tier),
         "C07" => props_seq::c07(tier),
         "C09" => props_seq::c09(tier),
